@@ -37,6 +37,7 @@ type FnSpec struct {
 	Inline         bool
 	NoFrame        bool        // the frame (assigns) of this function is not checked; it cannot be called by contract
 	NeverReads     [][2]string // heap-key prefixes the function must not touch at all (owned by another goroutine), with a label
+	Iterate        *Clause     // invariant of a caller's loop that calls this method until it fails (ReadAll summarisation)
 	Pure           bool        // the result is a function of the arguments and of the heap components named in Reads
 	Reads          []string    // heap key prefixes a pure function may read (checked when the function itself is verified)
 	Lemma          bool
@@ -456,6 +457,14 @@ func (c *Contracts) parseFile(prog *ssa.Program, p *packages.Package, sp *ssa.Pa
 							s.Reads = append(s.Reads, r)
 						}
 					}
+				}
+			case "iterate":
+				// iterate <target>: the function below is an invariant of "call <target> until it reports an error"
+				if !need(2) {
+					continue
+				}
+				if s, cl := c.spec(sp, fs[1], pos), clause(nil); s != nil && cl != nil {
+					s.Iterate = cl
 				}
 			case "never-reads":
 				// never-reads <target> <Type.field> <label>: the function does not even read that field (it belongs to
